@@ -192,7 +192,7 @@ def r4(ctx):
 def r5(ctx):
     prog = ctx.prog
     cw = prog.body("EventBuffer::clear_written")
-    clos = [c for c in prog.children(cw)]
+    clos = user_children(prog, cw)
     if len(clos) != 1:
         raise AnchorError("clear_written: expected one closure")
     cl = clos[0]
